@@ -32,7 +32,7 @@ Exhaustive explorations against the real code:
            sets (the 8 subsets of {a,b,c} and three with tags that extend a, b), asked as pred(list)
            and pred.test(set), insights.core.taglang.parse vs Boolean evaluation under  ! > & > | = ,
   tagx     atoms that are prefixes of each other / contain operator characters or blanks in quotes /
-           regex metacharacters, on all 64 subsets of their universe; parentheses and negations
+           regex metacharacters, on all 128 subsets of their universe; parentheses and negations
            nested 8 deep
   tagedit  every depth <= 2 expression with one token deleted, "", blanks only, dangling operators:
            malformed text must be rejected, text that stays well-formed must mean what its tokens say
@@ -102,11 +102,11 @@ ASSUMPTIONS = [
 ]
 
 BOUNDS = {
-    "quick": {"term_nodes": 4, "extended_term_nodes": 3, "input_len": 4, "call_nodes": 3, "xref_ext_full": 3,
-              "xref": "<=3 nodes x all inputs, 4 nodes x len<=2",
+    "quick": {"term_nodes": 4, "extended_term_nodes": 3, "input_len": 4, "call_nodes": 3, "xref_ext_full": 3, "xref_short": 1,
+              "xref": "<=3 nodes x all inputs, 4 nodes x len<=1",
               "json_depth": 3, "json_width": 2, "json_depth3": "one non-atomic child per container",
               "json_nesting": 12, "tag_depth": 3, "tag_atoms": 5},
-    "thorough": {"term_nodes": 5, "extended_term_nodes": 4, "input_len": 4, "call_nodes": 4, "xref_ext_full": 3,
+    "thorough": {"term_nodes": 5, "extended_term_nodes": 4, "input_len": 4, "call_nodes": 4, "xref_ext_full": 3, "xref_short": 2,
                  "xref": "<=4 nodes x all inputs (extended: <=3), larger x len<=2",
                  "json_depth": 3, "json_width": 2, "json_depth3": "all children of depth <= 2",
                  "json_nesting": 30, "tag_depth": 3, "tag_atoms": 7},
@@ -538,6 +538,15 @@ def schedule(t, size, tier):
     return ops, exps, absorbed, skipped
 
 
+def hang_explained_by_leading_separator(t, s):
+    """A non-terminating run on a pair the reference completes: is it the known sep_by family?  Once the
+    definitional expansion has consumed 'separator, instance' without a preceding instance, an enclosing
+    repetition can meet a sub-term that succeeds without consuming - the pair is then outside the
+    quantifier *for the expansion* (LOOP), although inside it for the documented meaning."""
+    peg.evaluate(t, s)
+    return peg.Stats.sep_leading > 0 and peg.evaluate(t, s, peg.LEADING_SEP) is peg.LOOP
+
+
 def run_op(parser, via, s):
     return run_process(parser, s) if via == "process" else run_call(parser, s)
 
@@ -554,7 +563,7 @@ def replay_history(hist, upto):
             with cpu_guard():
                 parser = build(t)
                 for via, s in ops:
-                    if run_op(parser, via, s) is HANG:
+                    if run_op(parser, via, s) is HANG and not hang_explained_by_leading_separator(t, s):
                         break
         except BudgetExceeded:
             pass
@@ -598,13 +607,17 @@ def check_term_case(case):
         clause = "combinators:end-position"
     else:
         clause = "combinators:value"
-    if got is not HANG and leading:
+    if got is HANG and leading and hang_explained_by_leading_separator(t, s):
+        feats["sep_by_separator_without_preceding_instance"] = True
+        clause = "combinators:sep_by-separator-follows-an-instance"
+    elif got is not HANG and leading:
         # attribution only: the observation equals the definitional expansion Opt(x) then Many(sep >> x),
         # which consumes "separator, instance" although no instance precedes the separator.  That family
         # shows up as a wrong position, value or accept/reject decision depending on the enclosing term,
         # so it gets a clause of its own - only when the expansion explains the observation completely.
         feats["sep_by_separator_without_preceding_instance"] = True
-        if agree(peg.evaluate(t, s, peg.LEADING_SEP), got, with_pos):
+        alt = peg.evaluate(t, s, peg.LEADING_SEP)
+        if alt is not peg.LOOP and agree(alt, got, with_pos):
             clause = "combinators:sep_by-separator-follows-an-instance"
     return [(clause, describe(exp if with_pos or exp is peg.FAIL else (None, exp[1])), describe(got), feats)]
 
@@ -841,7 +854,7 @@ def check_json_case(case):
 
 # ---- further JSON families (part "jsonx") ------------------------------------------------------
 
-J_SPECIAL_SCALARS = ["a,b]", "{:", " s ", "'", "tru", "[", "1", "null", "a b", 10, 100, -10, 0.5, -2.5, 12.25, 1.0, 99, 255]
+J_SPECIAL_SCALARS = ["a,b]", "{:", " s ", "'", "tru", "[", "1", "null", "a b", "%s{0}", 10, 100, -10, 0.5, -2.5, 12.25, 1.0, 99, 255]
 J_SMALL = [0, "", 7, ["A"]]
 
 
@@ -954,10 +967,10 @@ T_BIN = [("and", "&"), ("or", "|"), ("or", ",")]
 # part "tagx": atoms that are prefixes of each other, contain operator characters / blanks inside quotes,
 # regex atoms with metacharacters (an unquoted regex runs to the next blank, documented), evaluated on all
 # subsets of a tag universe that contains those neighbours
-TX_ATOMS = [["tag", "a"], ["tag", "ab"], ["tag", "a.b-c_1"], ["qtag", "a b", "'"], ["qtag", "a&b", '"'],
+TX_ATOMS = [["tag", "a"], ["tag", "ab"], ["tag", "a.b-c_1"], ["tag", "k=v:1%#"], ["qtag", "a b", "'"], ["qtag", "a&b", '"'],
             ["qtag", "ab", '"'], ["re", "^a$", None], ["re", "a.", None], ["re", "^ab?$", None],
             ["re", "a b", "'"], ["re", "a&b", None], ["re", "^a$|^b$", None], ["re", "\\w[&.]", None]]
-TX_TAGSETS = [list(c) for c in enumx.subsets(["a", "ab", "b", "a b", "a&b", "a.b-c_1"])]
+TX_TAGSETS = [list(c) for c in enumx.subsets(["a", "ab", "b", "a b", "a&b", "a.b-c_1", "k=v:1%#"])]
 
 
 def t_asts(tier, depth_exact, atoms=None):
@@ -1419,7 +1432,7 @@ def _terms_hot(unit, tier):
                         ok = agree(exps[s], got, False)
                     if not ok:
                         mine.append(k)
-                        if got is HANG:
+                        if got is HANG and not hang_explained_by_leading_separator(t, s):
                             hung = True
                             break       # do not burn the budget on every input of a looping term
         except BudgetExceeded:
@@ -1645,7 +1658,7 @@ def _xref_unit(unit, tier):
         ext = id(t) in _EXT_IDS
         full = size < top if not ext else size <= b["xref_ext_full"]
         for s in (INPUTS_NL if has_kind(t, "mark") else INPUTS):
-            if not full and len(s) > SHORT:
+            if not full and len(s) > b["xref_short"]:
                 continue
             a = peg.evaluate(t, s)
             c = peg.tabular(t, s)
